@@ -823,6 +823,12 @@ class Interp(object):
         if isinstance(v, (int, float, str, bool, list, tuple, dict, set)):
             raise PyExc('AttributeError', "'%s' object has no attribute '%s'"
                         % (type(v).__name__, name))
+        if isinstance(v, PyExc):
+            # a caught exception of the interpreted program: its class name, message and args
+            if name == '__class__':
+                return SObj('type', {'__name__': v.etype, '__open__': False}, label=v.etype)
+            if name == 'args':
+                return (v.msg,)
         raise Unsupported('attribute %s of %r' % (name, type(v).__name__))
 
     def index_value(self, k):
